@@ -191,3 +191,37 @@ def court_strings() -> List[Tuple[str, str]]:
 
 
 NOMINATIVE_NAMES = ["Thompson", "Cooke", "Holmes", "Olcott", "Chase", "Gilmer", "Bee", "Deady", "Taney"]
+
+
+@lru_cache(maxsize=1)
+def ambiguous_court_prefixes() -> List[Tuple[str, Tuple[str, ...]]]:
+    """(abbreviated court string, full citation strings it is a proper prefix of) for abbreviations that have no exact
+    courts-db entry and are a prefix (after normalisation) of at least two entries: the documented fallback has to
+    choose among several courts there, so these are the strings on which a choice could depend on something other
+    than the text."""
+    from courts_db import courts
+
+    def norm(s):
+        return re.sub(r"[^\w]", "", s).lower()
+
+    entries = []
+    for c in courts:
+        s = c.get("citation_string", "") or ""
+        if s and not re.search(r"[()\[\];]|\d{4}", s) and s == s.strip() and "\n" not in s:
+            entries.append((s, norm(s)))
+    exact = {n for _, n in entries}
+    allnorm = [norm(c.get("citation_string", "") or "") for c in courts]
+    out = {}
+    for s, _ in entries:
+        words = s.split(" ")
+        for k in range(1, len(words)):
+            t = " ".join(words[:k])
+            n = norm(t)
+            if len(n) < 3 or n in exact or t in out:
+                continue
+            if sum(1 for x in allnorm if x.startswith(n)) < 2:
+                continue
+            fulls = tuple(sorted({f for f, fn in entries if fn.startswith(n)}))
+            if len(fulls) >= 2:
+                out[t] = fulls
+    return sorted(out.items())
